@@ -107,38 +107,89 @@ def apply_update(ctx: Ctx):
     rules.rule_fold_threading(ctx, "D2", fn, 1)
 
 
-def drivers(ctx: Ctx):
-    repo = ctx.repo
-    crank = repo.func(COSIM, "crank")
-    rs = repo.func(COSIM, "crank.run_step")
-    acc, idx = rs.params[:2]
+def _step_callable(repo, fn, F):
+    """The function a fold's reducer denotes, however it is bound: (step function, index of its payload parameter, [expressions bound
+    before it]) for `G`, `ft.partial(G, a, ..)`, or `K(a, ..)` with K a factory that returns its nested step function."""
+    F = flow.core(F)
+    if isinstance(F, ast.Call) and (flow.dump(F.func)).split(".")[-1] == "partial" and F.args and not F.keywords:
+        g = rules.resolve_callable(repo, fn, F.args[0])
+        if g is not None:
+            return g, len(F.args) - 1, list(F.args[1:])
+    if isinstance(F, ast.Call) and isinstance(F.func, ast.Name) and not F.keywords:
+        k = rules.resolve_callable(repo, fn, F.func)
+        if k is not None:
+            rets = [p.value for p in flow.paths(k.node) if p.kind == "return"]
+            if len(rets) == 1 and isinstance(rets[0], ast.Name):
+                inner = repo.func_opt(k.relpath, f"{k.qualname}.{rets[0].id}")
+                if inner is not None:
+                    return inner, 0, list(F.args)
+    g = rules.resolve_callable(repo, fn, F)
+    if g is not None:
+        return g, 0, []
+    return None
+
+
+def _judge_step(ctx: Ctx, step, idx: int, label: str, flush_cond=None):
+    """one step = apply_update on the CURRENT payload, flush with the UPDATED payload, return it; the step index is ignored"""
+    pay = step.params[idx]
     n = 0
-    for p in flow.paths(rs.node):
+    for p in flow.paths(step.node):
         if p.kind != "return":
             continue
         n += 1
-        ok = flow.dump(p.value) == f"{acc}.u.apply_update({acc})"
-        ctx.check(ok, "D3", "ORD.driver", "crank.run_step returns <current payload>.u.apply_update(<current payload>)", rs, p.end,
-                  why_bad=f"returns {flow.dump(p.value)[:120]}: an update captured outside the fold would discard what the previous step produced", construct="crank.run_step:apply")
+        ok = flow.dump(p.value) == f"{pay}.u.apply_update({pay})"
+        ctx.check(ok, "D3", "ORD.driver", f"{label} returns <current payload>.u.apply_update(<current payload>)", step, p.end,
+                  why_bad=f"returns {flow.dump(p.value)[:120]}: an update captured outside the fold would discard what the previous step produced", construct=f"{label}:apply")
         flushed = [e for e in p.events if e.name == "flush" and not e.deferred]
-        want_flush = any(flow.dump(a) == "flush_events" and pol is True for a, pol in p.facts())
+        want_flush = True if flush_cond is None else any(flow.dump(a) == flush_cond and pol is True for a, pol in p.facts())
         if want_flush:
             # the environment (and its reporter) does not change between steps: only the flushed payload matters
             ok = len(flushed) == 1 and len(flushed[0].call.args) == 1 and flow.same(flushed[0].call.args[0], p.value)
-            ctx.check(ok, "D3", "ORD.driver", "crank.run_step flushes the reporter with the updated payload after the update", rs, p.end,
-                      why_bad=f"flush calls {[flow.dump(e.call)[:100] for e in flushed]}", construct="crank.run_step:flush")
-    ctx.check(not any(isinstance(x, ast.Name) and x.id == idx for x in ast.walk(rs.node) if not isinstance(x, ast.arg)), "D3", "ORD.driver",
-              "crank's reducer ignores the step index", rs, why_bad="index-dependent step", construct="crank.run_step:index")
+            ctx.check(ok, "D3", "ORD.driver", f"{label} flushes the reporter with the updated payload after the update", step, p.end,
+                      why_bad=f"flush calls {[flow.dump(e.call)[:100] for e in flushed]}", construct=f"{label}:flush")
+    ctx.require(n >= 1, f"{label}: no return path")
+    rest = step.params[idx + 1:]
+    used = [x for x in ast.walk(step.node) if isinstance(x, ast.Name) and x.id in rest]
+    ctx.check(not used, "D3", "ORD.driver", f"{label} ignores the step index", step, why_bad="index-dependent step", construct=f"{label}:index")
+
+
+def drivers(ctx: Ctx):
+    repo = ctx.repo
+    crank = repo.func(COSIM, "crank")
     ts = crank.params[1]
-    ok = False
-    for p in flow.paths(crank.node):
-        if p.kind == "return":
-            for c in flow.calls_in(p.value, "reduce"):
-                it = flow.dump(c.args[1]) if len(c.args) > 1 else ""
-                ok = flow.dump(c.args[0]) == "run_step" and it in (f"range({ts})", f"tqdm(range({ts}), position=0) if progress_bar else range({ts})") and flow.dump(c.args[2]) == crank.params[0]
-            res_ok = "next_state" or True
-    ctx.check(ok, "D3", "ORD.driver", "crank folds run_step over exactly range(time_steps), starting from the given payload", crank,
-              why_bad="fold shape changed", construct="crank:fold")
+    ITER = (f"range({ts})", f"tqdm(range({ts}), position=0) if progress_bar else range({ts})")
+    folds = [c for p in flow.paths(crank.node) if p.kind == "return" for c in flow.calls_in(p.value, "reduce") if len(c.args) >= 3]
+    if folds:
+        c = folds[0]
+        sc = _step_callable(repo, crank, c.args[0])
+        ctx.require(sc is not None, "crank: the reducer of its fold cannot be resolved to a function")
+        step, idx, bound = sc
+        _judge_step(ctx, step, idx, "crank.run_step", "flush_events")
+        ok = flow.dump(c.args[1]) in ITER and flow.dump(c.args[2]) == crank.params[0] and not bound
+        ctx.check(ok, "D3", "ORD.driver", "crank folds run_step over exactly range(time_steps), starting from the given payload", crank,
+                  why_bad="fold shape changed", construct="crank:fold")
+    else:
+        # the fold written as a loop: the path that enters the loop returns STEP(A) where the path that skips it returns A
+        ps = [p for p in flow.paths(crank.node) if p.kind == "return" and p.value is not None]
+        first = lambda v: v.args[0] if isinstance(v, ast.Call) and v.args else v  # CrankResult(<payload>, <time>)
+        skip = [p for p in ps if not any(cd.pol == "iter" for cd in p.conds)]
+        it = [p for p in ps if any(cd.pol == "iter" for cd in p.conds)]
+        ctx.require(bool(skip) and bool(it), "crank: neither a reduce nor a loop over the steps was recognised")
+        A = flow.dump(first(skip[0].value))
+        ctx.check(A == crank.params[0], "D3", "ORD.driver", "crank starts from the given payload", crank, why_bad=f"starts from {A[:80]}", construct="crank:fold")
+        for p in it:
+            v = first(p.value)
+            ok = flow.dump(v) == f"{A}.u.apply_update({A})"
+            ctx.check(ok, "D3", "ORD.driver", "crank's loop body returns <current payload>.u.apply_update(<current payload>)", crank, p.end,
+                      why_bad=f"computes {flow.dump(v)[:120]}", construct="crank.run_step:apply")
+            flushed = [e for e in p.events if e.name == "flush" and not e.deferred]
+            if any(flow.dump(a) == "flush_events" and pol is True for a, pol in p.facts()):
+                ok = len(flushed) == 1 and len(flushed[0].call.args) == 1 and flow.same(flushed[0].call.args[0], v)
+                ctx.check(ok, "D3", "ORD.driver", "crank's loop body flushes the reporter with the updated payload after the update", crank, p.end,
+                          why_bad=f"flush calls {[flow.dump(e.call)[:100] for e in flushed]}", construct="crank.run_step:flush")
+            its = [flow.dump(cd.test) for cd in p.conds if cd.pol == "iter" and cd.test is not None]
+            ctx.check(all(t in ITER or t == "steps" for t in its), "D3", "ORD.driver", "crank loops over exactly range(time_steps)", crank, p.end,
+                      why_bad=f"iterates {its}", construct="crank:fold")
     run = repo.func(LSR, "LocalSimulationRunner.run")
     rp = run.params[1]
     cfg = f"{rp}.e.config.sim"
@@ -150,30 +201,20 @@ def drivers(ctx: Ctx):
         for c in flow.calls_in(p.value, "reduce"):
             found = True
             it = flow.dump(c.args[1]) if len(c.args) > 1 else ""
-            ok = it in (rng, f"tqdm({rng})") and flow.dump(c.args[0]) == f"_run_step_in_context({rp}.e)" and flow.dump(c.args[2]) == rp
+            sc = _step_callable(repo, run, c.args[0])
+            ctx.require(sc is not None, "LocalSimulationRunner.run: the reducer of its fold cannot be resolved to a function")
+            step, idx, bound = sc
+            ok = it in (rng, f"tqdm({rng})") and [flow.dump(b) for b in bound] == [f"{rp}.e"] and flow.dump(c.args[2]) == rp
             if ok:
                 ctx.ok("D3", "ORD.driver", "the runner folds over range(start_time, end_time, timestep) of the configuration", run, p.end)
             elif "range(" in it:
                 ctx.violation("D3", "ORD.driver", "the runner folds over range(start_time, end_time, timestep) of the configuration", run, p.end,
-                              why=f"iterates {it[:200]}: the number of steps no longer covers the interval [start, end) (a partial last step is dropped or added)", construct="LocalSimulationRunner.run:range")
+                              why=f"iterates {it[:200]} (step bound to {[flow.dump(b)[:40] for b in bound]}): the number of steps no longer covers the interval [start, end) (a partial last step is dropped or added)", construct="LocalSimulationRunner.run:range")
             else:
                 raise AnalysisError(f"LocalSimulationRunner.run: unrecognised step iterable {it[:100]}")
+            _judge_step(ctx, step, idx, "_run_step")
+            ctx.extra["runner_step"] = (step.relpath, step.qualname, idx)
     ctx.require(found, "LocalSimulationRunner.run: fold not found")
-    inner = repo.func(LSR, "_run_step_in_context._run_step")
-    pay = inner.params[0]
-    for p in flow.paths(inner.node):
-        if p.kind != "return":
-            continue
-        ok = flow.dump(p.value) == f"{pay}.u.apply_update({pay})"
-        fl = [e for e in p.events if e.name == "flush" and not e.deferred]
-        ok2 = len(fl) == 1 and len(fl[0].call.args) == 1 and flow.same(fl[0].call.args[0], p.value)
-        ctx.check(ok and ok2, "D3", "ORD.driver", "_run_step: apply_update on the current payload, flush with the updated payload, return it (same sequence as crank)", inner, p.end,
-                  why_bad=f"returns {flow.dump(p.value)[:100]}, flush {[flow.dump(e.call)[:80] for e in fl]}", construct="_run_step:shape")
-    outer = repo.func(LSR, "_run_step_in_context")
-    ps = [p for p in flow.paths(outer.node) if p.kind == "return"]
-    ctx.check(flow.values_match(ps, "_run_step"), "D3", "ORD.driver", "_run_step_in_context returns the step closure", outer, why_bad="changed", construct="_run_step_in_context")
-    n_idx = [x for x in ast.walk(inner.node) if isinstance(x, ast.Name) and len(inner.params) > 1 and x.id == inner.params[1]]
-    ctx.check(not n_idx, "D3", "ORD.driver", "the runner's step ignores the time index", inner, why_bad="index-dependent", construct="_run_step:index")
 
 
 def step_guard(ctx: Ctx):
@@ -185,8 +226,18 @@ def step_guard(ctx: Ctx):
             return p.kind
         if p.value is None or flow.is_none(p.value):
             return "refuse"
-        if flow.dump(p.value) == f"_run_step_in_context({rp}.e)({rp})":
-            return "step"
+        v = flow.core(p.value)
+        if isinstance(v, ast.Call) and isinstance(v.func, ast.Call):       # K(rp.e)(rp)
+            sc = _step_callable(ctx.repo, fn, v.func)
+            if sc is not None and [flow.dump(b) for b in sc[2]] == [f"{rp}.e"] and [flow.dump(a) for a in v.args] == [rp] and not v.keywords:
+                return "step"
+        elif isinstance(v, ast.Call) and not v.keywords:                      # G(rp.e, rp)
+            g = rules.resolve_callable(ctx.repo, fn, v.func)
+            known = ctx.extra.get("runner_step")
+            if g is not None and [flow.dump(a) for a in v.args] == [f"{rp}.e", rp] and (known is None or (g.relpath, g.qualname) == tuple(known[:2])):
+                return "step"
+            if flow.dump(v) == f"{rp}.u.apply_update({rp})":                  # the step function read in place (a helper the pinned tree does not have)
+                return "step"
         return "other:" + flow.dump(p.value)[:60]
 
     rows = cmp.path_table(flow.paths(fn.node), {f"{rp}.s.sim_time": "now", f"{rp}.e.config.sim.end_time": "end"}, label, grid=range(0, 3))
@@ -288,7 +339,16 @@ def wiring(ctx: Ctx):
     sites = [s for s in idx.calls("SimulationState", refs=False) if in_pkg(s) and s.file.startswith("nrel/hive/initialization")]
     ctx.require(len(sites) >= 3, f"only {len(sites)} constructions of the initial SimulationState found")
     for s in sites:
-        kw = {k.arg: flow.dump(k.value) for k in s.node.keywords if k.arg}
+        # plain aliases of the enclosing function (`cfg = config`, the parameter bindings of an inlined helper) are read through
+        alias = {}
+        if s.func is not None:
+            for a in ast.walk(s.func.node):
+                if isinstance(a, ast.Assign) and len(a.targets) == 1 and isinstance(a.targets[0], ast.Name) and isinstance(a.value, (ast.Name, ast.Attribute)) \
+                        and sum(1 for b in ast.walk(s.func.node) if isinstance(b, ast.Name) and b.id == a.targets[0].id and isinstance(b.ctx, ast.Store)) == 1:
+                    alias[a.targets[0].id] = a.value
+        for _ in range(3):
+            alias = {k: flow.subst(v, alias) for k, v in alias.items()}
+        kw = {k.arg: flow.dump(flow.subst(k.value, alias)) for k in s.node.keywords if k.arg}
         for fld, want in CONFIG_WIRING.items():
             got = kw.get(fld)
             ctx.check(got is not None and got.endswith(want), "D1", "DU.config-wiring", f"{s.qual}: SimulationState({fld}=...) comes from {want}", s.func, s.node,
